@@ -2,6 +2,7 @@
   C10 — space-time MOC algebra, folds and lookups follow point-set semantics.
 -/
 import MocVerif.Lemmas.ST
+import MocVerif.Lemmas.Merge2D
 
 namespace Moc.C10
 
@@ -52,6 +53,25 @@ theorem sfold_ranges (y : List Rng) (hy : Canon y) (flat : FlatST) (hs : FlatSor
 
 example : FlatSorted 0 [((0, 5), [(0, 2)]), ((5, 10), [(4, 6)])] ∧ Canon [(0, 2)] ∧ Canon [(4, 6)] := by
   simp [FlatSorted, Canon, CanonFrom]
+
+/-- **The flat algebra AS COMPUTED** (`Ranges2D::merge`, the sweep behind `TimeSpaceMoc::{union, intersection,
+    difference}`, transliterated in `Model/Merge2D.lean` and tied to the code by exact agreement of the entries):
+    for every pair of well-formed operands — time ranges non-empty, ordered, disjoint (touching allowed), canonical
+    space coverages — the result covers exactly the pairs given by the point-wise operation … -/
+theorem flat_algebra_sem (op : Merge2D.Op) (a b : FlatST) (ha : Merge2D.InOk 0 a) (hb : Merge2D.InOk 0 b) (t s : Nat) :
+    memST t s (Merge2D.toST (Merge2D.merge2 op a b)) ↔
+      op.sem (memST t s (Merge2D.toST a)) (memST t s (Merge2D.toST b)) := by
+  rw [Merge2D.memST_toST, Merge2D.memST_toST, Merge2D.memST_toST]
+  exact (Merge2D.merge2_spec op a b ha hb).2 t s
+
+/-- … and is a VALID flat coverage: no zero-length time range, ranges ordered and disjoint, coverages non-empty
+    and canonical, no two touching ranges with the same coverage — what the judge `validFlatB` accepts. -/
+theorem flat_algebra_valid (op : Merge2D.Op) (a b : FlatST) (ha : Merge2D.InOk 0 a) (hb : Merge2D.InOk 0 b) :
+    validFlatB (Merge2D.toST (Merge2D.merge2 op a b)) = true :=
+  Merge2D.validFlatB_of_VF _ 0 none (Merge2D.merge2_spec op a b ha hb).1
+
+example : Merge2D.InOk 0 [((0, 5), [(0, 2)]), ((5, 10), [(4, 6)])] := by
+  simp [Merge2D.InOk, Canon, CanonFrom]
 
 /-- **Lookup** with half-open time ranges: true exactly for covered pairs (total by construction). -/
 theorem lookup_sem (t s : Nat) (a : STMoc) : memSTB t s a = true ↔ memST t s a := memSTB_iff t s a
